@@ -147,6 +147,40 @@ theorem create_before_run (fp : FPlan) (sched : List Task) (hB : Barrier fp sche
   rw [hs, take_append_cons] at this
   exact this
 
+/-- A node that owns a task is one of `nodesOf`. -/
+theorem node_of_task_mem (fp : FPlan) (n : Node) (t : Task) (h : t ∈ tasksOf fp n) : n ∈ nodesOf fp := by
+  cases n with
+  | createArrays => simp [nodesOf]
+  | op m =>
+    simp only [tasksOf] at h
+    split at h
+    · simp at h
+    · rename_i o ho
+      have hmem := List.mem_of_find?_eq_some ho
+      have hname : o.name = m := by
+        have := List.find?_some ho
+        simpa using this
+      simp only [nodesOf, List.mem_cons, List.mem_map]
+      right
+      exact ⟨o, hmem, by rw [hname]⟩
+
+/-- The executable barrier check implies the executor contract. -/
+theorem barrierOk_sound (fp : FPlan) (sched : List Task) (h : barrierOk fp sched = true) : Barrier fp sched := by
+  intro j t hj n ht p hp t' ht'
+  have hjlt : j < sched.length := by
+    rcases Nat.lt_or_ge j sched.length with hlt | hge
+    · exact hlt
+    · rw [List.getElem?_eq_none hge] at hj; cases hj
+  simp only [barrierOk, List.all_eq_true, List.mem_range] at h
+  have h1 := h j hjlt
+  rw [hj] at h1
+  simp only [List.all_eq_true] at h1
+  have h2 := h1 n (node_of_task_mem fp n t ht)
+  have hc : (tasksOf fp n).contains t = true := by simpa using ht
+  simp only [hc, Bool.not_true, Bool.false_or, List.all_eq_true] at h2
+  have h3 := h2 p hp t' ht'
+  simpa using h3
+
 /-- Splitting a `flatMap` at an element. -/
 theorem flatMap_split {α β} (f : α → List β) :
     ∀ (l : List α) (pre post : List β) (x : β), l.flatMap f = pre ++ x :: post →
